@@ -47,8 +47,8 @@ theorem binary_roundtrip (m : MapId)
     (match m.toBlock with
       | .mapping sub g o => MapId.ofBlock sub g o = .ok m
       | _ => False) := by
-  refine ⟨Wire.parseBlock_encBlock _ ?_ rest, MapId.ofBlock_toBlock m hg ho h1⟩
-  exact ⟨MapId.subFlag_le _, MapId.toBits_lt _, MapId.toBits_lt _⟩
+  exact ⟨MapId.parseBlock_encBlock_mapping _ _ _ (MapId.subFlag_le _) (MapId.toBits_lt _)
+    (MapId.toBits_lt _) rest, MapId.ofBlock_toBlock m hg ho h1⟩
 
 example (rest : Bytes) :
     Wire.parseBlock (Wire.encBlock m102.toBlock ++ rest) = .ok (m102.toBlock, rest) :=
@@ -104,6 +104,12 @@ theorem equals_refl (m : MapId) (g o : Rat) (hg : m.gamma = .fin g) (ho : m.inde
 
 example : m102.equals m102 = true := equals_refl m102 _ 0 gamma102_eq rfl
 
+/-- Finiteness is needed: `gamma = +Inf` passes the constructors' check (`¬ +Inf <= 1`), is accepted
+    by the decoder, and the resulting mapping is not `Equals` to itself (`Inf - Inf` is NaN). Same
+    in Go: `withinTolerance(+Inf, +Inf, 1e-12)` is false. -/
+example : MapId.ofBlock 0 0x7FF0000000000000 0 = .ok ⟨.log, .pinf, .fin 0⟩ := by decide +kernel
+example : (⟨.log, .pinf, .fin 0⟩ : MapId).equals ⟨.log, .pinf, .fin 0⟩ = false := by decide +kernel
+
 theorem equals_symm (a b : MapId) (ga gb oa ob : Rat)
     (hga : a.gamma = .fin ga) (hgb : b.gamma = .fin gb)
     (hoa : a.indexOffset = .fin oa) (hob : b.indexOffset = .fin ob) :
@@ -129,12 +135,12 @@ theorem equals_of_identity (a b : MapId) (g o : Rat) (hk : a.kind = b.kind)
   exact equals_refl a g o hgf hof
 
 /-- gammas (of valid mappings: `≥ 1`, finite) further apart than the relative tolerance are told
-    apart.  Sufficient gap, in exact rationals: `ga·(1 + 10⁻¹¹) < gb` (either way round). The
+    apart.  Sufficient gap, in exact rationals: `ga·(1 + 2·10⁻¹²) < gb` (either way round). The
     model's float arithmetic is used as is: `sub`, `mul`, `le` with their roundings. -/
 theorem not_equals_of_gamma_apart (a b : MapId) (ga gb : Rat)
     (hga : a.gamma = .fin ga) (hgb : b.gamma = .fin gb)
     (h1a : 1 ≤ ga) (h1b : 1 ≤ gb) (hfa : ga ≤ pow2 1023) (hfb : gb ≤ pow2 1023)
-    (h : ga * (1 + 1 / 10^11) < gb ∨ gb * (1 + 1 / 10^11) < ga) :
+    (h : ga * (1 + 2 / 10^12) < gb ∨ gb * (1 + 2 / 10^12) < ga) :
     a.equals b = false := by
   unfold MapId.equals
   rw [hga, hgb]
